@@ -365,7 +365,7 @@ func runC04(r *core.Run) {
 		}
 	}
 	// ---------- copies
-	copyOps := []string{"Clone", "Materialize", "SafeT", "Copy", "CopyTo", "ShallowClone", "ToMat64", "ToMat64Unsafe", "FromMat64", "native"}
+	copyOps := []string{"Clone", "Materialize", "SafeT", "RollAxisSafeNoop", "SafeTIdentity", "Copy", "CopyTo", "ShallowClone", "ToMat64", "ToMat64Unsafe", "FromMat64", "native"}
 	for _, d := range ref.ALL18 {
 		for _, shape := range shapes {
 			n := ref.Prod(shape)
@@ -620,6 +620,42 @@ func c04CheckCopy(r *core.Run, b *atlas.Built, cop string) *core.Fail {
 		}
 		want := ref.Arr{DT: d, Shape: shape, El: vals}.Permute(ref.Reversal(rk))
 		if f := sameLogical(d, cp, want.Shape, want.El, "SafeT of "+b.Layout); f != nil {
+			if tensor.Shape(shape).IsVector() && b.T.IsView() {
+				f.Kind += "[KF:strided-vector-view]"
+			}
+			return f
+		}
+		return probeDisjoint(b, cp, cop)
+	case "RollAxisSafeNoop", "SafeTIdentity":
+		// the copying transposes asked for nothing: they still hand out a tensor of their own
+		if rk < 1 {
+			return nil
+		}
+		var cp *tensor.Dense
+		o := call(func() (e error) {
+			if cop == "RollAxisSafeNoop" {
+				cp, e = b.T.RollAxis(rk-1, rk, true)
+				return
+			}
+			ax := make([]int, rk)
+			for i := range ax {
+				ax[i] = i
+			}
+			cp, e = b.T.SafeT(ax...)
+			return
+		})
+		r.Op(1)
+		r.Outcome(cop + ":" + o.Class)
+		if o.Class != "ok" {
+			return nil
+		}
+		if f := srcUnchanged(cop); f != nil {
+			return f
+		}
+		if cp == b.T {
+			return core.F("alias-unexpected", "same", "%s returned the receiver itself", cop)
+		}
+		if f := sameLogical(d, cp, shape, vals, cop+" of "+b.Layout); f != nil {
 			if tensor.Shape(shape).IsVector() && b.T.IsView() {
 				f.Kind += "[KF:strided-vector-view]"
 			}
